@@ -2,4 +2,4 @@ From Coq Require Import ZArith List.
 From Coq Require Extraction ExtrOcamlBasic.
 From SF Require Import HeaderCache.
 Extraction Language OCaml.
-Extraction "sfmodel.ml" header_read seek_set seek_cur mkh.
+Extraction "sfmodel.ml" header_read seek_set seek_cur seek_cur_pipe mkh.
